@@ -23,6 +23,14 @@ Proof.
 Qed.
 Print Assumptions cb_refines_file.
 
+(* The three stream back-ends (path and FILE entry points share the FILE back-end) return the same observations on every
+   operation sequence inside both fragments: composition of the two theorems above. *)
+Theorem all_backends_agree : forall data ops,
+  all_safe data init_state ops = true -> all_safe_cb data init_state ops = true ->
+  run data CBB init_state ops = run data FILEB init_state ops /\ run data FILEB init_state ops = run data MEMB init_state ops.
+Proof. intros data ops H1 H2. split; [exact (cb_refines_file data ops H2)|exact (backends_agree_on_fragment data ops H1)]. Qed.
+Print Assumptions all_backends_agree.
+
 (* each way of leaving the fragment is a real divergence of the back-ends (witnesses on the one-byte string [7]) *)
 Theorem divergence_characterised :
   run [7] FILEB init_state [Read8; Read8s] <> run [7] MEMB init_state [Read8; Read8s] /\
